@@ -141,9 +141,16 @@ def gen_forms(seed, shard, n):
                  ("from_jde", lambda: Epoch(Epoch(y, m, d, h, mi, s).jde()))]
         if 1 <= y <= 9999:
             us = int(round((s % 1) * 1e6))
-            forms.append(("datetime", lambda: Epoch(datetime.datetime(y, m, d, h, mi, int(s), us))))
-            if (h, mi, s) == (0, 0, 0):
-                forms.append(("date", lambda: Epoch(datetime.date(y, m, d))))
+            # the datetime object is built HERE (preparation): datetime is proleptic Gregorian and has no 29 February in
+            # Julian century years, nor a microsecond field of 1000000 - such dates simply have no datetime form
+            try:
+                dt = datetime.datetime(y, m, d, h, mi, int(s), us)
+                forms.append(("datetime", lambda: Epoch(dt)))
+                if (h, mi, s) == (0, 0, 0):
+                    da = datetime.date(y, m, d)
+                    forms.append(("date", lambda: Epoch(da)))
+            except ValueError:
+                pass
         js, ok, nm = [], [], []
         for name, f in forms:
             nm.append(name)
